@@ -255,16 +255,25 @@ def derived_cases(recs, objs):
     for i, (r, sp) in enumerate(zip(recs, objs)):
         for c in sorted(r.get('cases', []), key=lambda c: (c['op'], c['dt'], c['idx'], c['form'])):
             cases.append((i, c['op'], c['dt'], list(c['idx']), c['form'],
-                          lambda s, c=c: derived_call(s, c['op'], c['dt'], list(c['idx']), c['form'])))
+                          lambda s, c=c: derived_call(s, c['op'], c['dt'], list(c['idx']), c['form']),
+                          c['desc'] if c.get('hasdesc') else None))
     return cases
 
 
-def run_derived(sp, fn):
+def run_derived(sp, fn, desc=None, builder=None, alt=2):
+    """-> (out, error text, pair): pair = failures of the derived-vs-direct comparison, ['n/a'] if not applicable."""
     try:
         r = fn(sp)
-        return {'k': 'ok', 'view': L.view(r)}, ''
+        out = {'k': 'ok', 'view': L.view(r)}
     except Exception as e:
-        return {'k': 'raise', 'view': L.NOVIEW}, type(e).__name__ + ': ' + str(e)[:100]
+        return {'k': 'raise', 'view': L.NOVIEW}, type(e).__name__ + ': ' + str(e)[:100], ['n/a']
+    if desc is None:
+        return out, '', ['n/a']
+    try:
+        direct = (builder or L.Builder()).build(desc, alt)
+    except Exception as e:
+        return out, 'direct object: %s: %s' % (type(e).__name__, str(e)[:80]), ['direct-construction-raises']
+    return out, '', L.pair_failures(r, direct)
 
 
 # ------------------------------------------------------------------ chains (histories on one cached object)
@@ -345,8 +354,14 @@ def chain_events(path, first_id):
                 fresh = 'equal' if (res == fres and fres == res and L.view(res) == L.view(fres)) else 'differs'
             elem = chain_element(res) if res is not None and np.dtype(res.dtype).kind in 'fc' else \
                 {'k': 'n/a', 'bad': [], 'rview': L.NOVIEW}
+            pair = ['n/a']
+            if res is not None and c.get('hasdesc'):
+                try:
+                    pair = L.pair_failures(res, L.Builder().build(c['desc'], 2 + n % 2))
+                except Exception:
+                    pair = ['direct-construction-raises']
             evs.append({'ev': 'chain', 'id': first_id + n, 'd': c['d'], 'path': c['path'], 'out': out, 'oids': oids,
-                        'fresh': fresh, 'elem': elem, 'ids': c['ids'], 'mk': c['mk'], 'mview': c['mview']})
+                        'fresh': fresh, 'elem': elem, 'ids': c['ids'], 'mk': c['mk'], 'mview': c['mview'], 'pair': pair})
     return evs
 
 
@@ -528,6 +543,8 @@ def idx_class(label):
 
 def case_signature(clause, ev):
     """Family of an element() / derived-space / indexing / chain finding."""
+    if ev['ev'] == 'part':
+        return {'clause': clause, 'cls': 'RectPartition'}
     if ev['ev'] == 'hist':
         kinds = sorted({a['kind'] for a in ev['acts'] if a['a'] == 'construct'})
         return {'clause': clause, 'kinds': '+'.join(kinds),
@@ -582,6 +599,11 @@ def run(ctx):
         '(approx_equals is the documented tolerant comparison)',
         'chains of <= 3 derived-space operations run on ONE cached object per start (all dtypes incl. float16, ints) '
         'and on a fresh equal space; layer A is history-free',
+        'attributes equality does not compare (axis_labels of a discretised space, an explicitly passed field of a product '
+        'space) are part of the descriptors (x): objects differing only there are EQUAL and must hash equal; every derived '
+        'space / chain result / partition part is also compared (==, hash, set, dict, element membership) with the '
+        'DIRECTLY constructed object layer A describes',
+        'dtype changes of product spaces are component-wise (also for components of different dtypes / kinds)',
         'histories of <= 4 actions construct / hash / mutate caller array / mutate coordinates in place / construct '
         'again: equal => equal hash and the documented (identity resp. value) equality after every history']
     work = ctx.work
@@ -626,13 +648,27 @@ def run(ctx):
         extra_events.append({'ev': 'element', 'id': eid, 'spc': recs[i]['d'], 'inp': idesc, 'out': outp})
         meta[eid] = {'kind': 'element', 'oid': recs[i]['oid'], 'label': label, 'err': err}
         ctx.count(['element', recs[i]['k'], label], label not in ('data-own-dtype',))
-    for i, op, dt, idx, form, fn in derived_cases(recs, objs):
-        outp, err = run_derived(objs[i], fn)
+    for i, op, dt, idx, form, fn, desc in derived_cases(recs, objs):
+        outp, err, pair = run_derived(objs[i], fn, desc, builder, 2 + eid % 2)
         eid += 1
         extra_events.append({'ev': 'derived', 'id': eid, 'op': op, 'spc': recs[i]['d'], 'dt': dt, 'idx': idx, 'form': form,
-                             'out': outp})
+                             'out': outp, 'pair': pair})
         meta[eid] = {'kind': 'derived', 'oid': recs[i]['oid'], 'op': op, 'dt': dt, 'idx': idx, 'form': form, 'err': err}
         ctx.count(['derived', recs[i]['k'], op, dt, idx], True)
+    for i, r in enumerate(recs):
+        for c in sorted(r.get('pcases', []), key=lambda c: (c['op'], c['idx'])):
+            eid += 1
+            try:
+                z = [t - 1 for t in c['idx']]
+                got = objs[i].set if c['op'] == 'set' else (objs[i].grid if c['op'] == 'grid' else
+                                                             objs[i].byaxis[z[0] if len(z) == 1 else z])
+                k, pair = 'ok', L.pair_failures(got, builder.build(c['desc'], 2 + eid % 2))
+            except Exception:
+                k, pair = 'raise', ['n/a']
+            extra_events.append({'ev': 'part', 'id': eid, 'spc': r['d'], 'op': c['op'], 'idx': list(c['idx']), 'k': k,
+                                 'pair': pair})
+            meta[eid] = {'kind': 'part', 'oid': r['oid'], 'op': c['op'], 'idx': list(c['idx'])}
+            ctx.count(['part', r['k'], c['op'], list(c['idx'])], True)
     nidx = 0
     for i, (r, sp) in enumerate(zip(recs, objs)):
         if not L.is_space(r['d']) or r['copy'] != 1:
@@ -800,12 +836,16 @@ def replay(body):
         print('REPRODUCED' if bad else 'NOT-REPRODUCED')
         return 1 if bad else 0
     ev, m = d['event'], d['meta']
+    if d['stage'] == 'part':
+        print('event:', dumps(ev)[:500])
+        print('(re-run the check to replay partition parts)')
+        return 2
     if d['stage'] not in ('chain', 'hist'):
         recs = [{'oid': 1, 'k': 1, 'copy': 1, 'd': ev['spc']}]
         sp = b.build(ev['spc'], 1)
         print('space =', L.safe_repr(sp, 200))
     if d['stage'] == 'derived':
-        outp, err = run_derived(sp, lambda x: derived_call(x, m['op'], m['dt'], m['idx'], m['form']))
+        outp, err, _ = run_derived(sp, lambda x: derived_call(x, m['op'], m['dt'], m['idx'], m['form']))
         print(m['op'], m['dt'], m['idx'], m['form'], '->', dumps(outp), err)
         bad = outp == ev['out']
         print('REPRODUCED' if bad else 'NOT-REPRODUCED')
